@@ -24,6 +24,18 @@ EXPECT = [
     {"src": "-(-9223372036854775807 - 1)", "field": "result", "want": "i:-9223372036854775808", "why": "unary - wraps"},
 ]
 
+# a float is a float whatever its width, an integer repeat count is a count whatever its width: values of the narrower Go
+# kinds (read from typed slices the script made itself) follow the same tower
+_F32 = "a = make([]float32, 1); a[0] = 1.5; v = a[0]\n"
+for _e, _w in (("v * 2", 4613937818241073152), ("2 * v", 4613937818241073152), ("v * 2.0", 4613937818241073152), ("v * v", 4612248968380809216), ("v + 2", 4615063718147915776), ("2 + v", 4615063718147915776), ("v - 1", 4602678819172646912), ("4 - v", 4612811918334230528), ("v / 2", 4604930618986332160), ("-v", 13832806255468478464), ("v * -3", 13840124604862955520)):
+    EXPECT.append({"src": _F32 + _e, "field": "result", "want": "f:%d" % _w, "why": "`%s` with v a float32 of 1.5 is carried out in float64" % _e})
+for _e, _w in (("v < 2", "true"), ("1 < v", "true"), ("v > 1", "true"), ("v <= 1", "false"), ("2 >= v", "true")):
+    EXPECT.append({"src": _F32 + _e, "field": "result", "want": "b:" + _w, "why": "`%s` with v a float32 of 1.5 is compared in float64" % _e})
+for _k in ("int", "int32", "int64"):
+    EXPECT.append({"src": "b = make([]%s, 1); b[0] = 2; n = b[0]\n\"ab\" * n" % _k, "field": "result", "want": "s:61626162", "why": "string * n repeats the string n times for a count of kind %s" % _k})
+    EXPECT.append({"src": "b = make([]%s, 1); b[0] = 2; n = b[0]\n[n * 3, 3 * n, n + 1, n - 5, n %% 2, n << 2, -n]" % _k, "field": "result", "want": "[i:6,i:6,i:3,i:-3,i:0,i:8,i:-2]",
+                   "why": "integer arithmetic on a value of kind %s gives the int64 result" % _k})
+
 
 def run(tier, seed, replay=None):
     return interpcheck.run_interp_check(
